@@ -65,7 +65,14 @@ enum Observed {
 }
 
 fn execute(p: &Planted, render: bool, ctx: &tera::Context) -> Observed {
+    execute_with(p, render, ctx, None)
+}
+
+fn execute_with(p: &Planted, render: bool, ctx: &tera::Context, delims: Option<tera::Delimiters>) -> Observed {
     let mut tera = tera::Tera::default();
+    if let Some(d) = delims {
+        tera.set_delimiters(d).expect("delimiter set is accepted");
+    }
     let added = engine::guarded(|| {
         tera.add_raw_templates(p.templates.iter().map(|(a, b)| (a.as_str(), b.as_str())))
     });
@@ -611,6 +618,107 @@ fn run_edit(id: &str, text: &str, site: usize, pad: usize, count_messages: bool,
     }
 }
 
+/// Custom delimiter sets: D1 `<% %> << >> <# #>`, D2 one two-byte character each.
+const CUSTOM_DELIMS: [(&str, [&str; 6]); 2] = [
+    ("D1", ["<%", "%>", "<<", ">>", "<#", "#>"]),
+    ("D2", ["¶", "§", "«", "»", "¿", "¡"]),
+];
+
+/// Brace-free faults spelled with placeholders: ⟪ ⟫ variable, ⟦ ⟧ block, ⟨ ⟩ comment delimiters.
+/// (render?, text) — several tags / expressions / comments BEFORE the fault on the same line, so
+/// that every delimiter the lexer passes contributes to the column.
+const CUSTOM_FAULTS: [(&str, bool, &str); 10] = [
+    ("div-zero", true, "⟪ 1 ⟫⟨ c ⟩⟪ 1 / 0 ⟫"),
+    ("undefined", true, "⟦ if true ⟧a⟦ endif ⟧ ⟪ u ⟫"),
+    ("math-on-string", true, "⟪- 2 -⟫ x ⟪ s + 1 ⟫"),
+    ("filter-arg", true, "⟨- c -⟩⟪ 3 ⟫ ⟪ s | truncate(length=s) ⟫"),
+    ("for-non-iterable", true, "⟪ 1 ⟫⟪ 2 ⟫⟦ for x in n ⟧y⟦ endfor ⟧"),
+    ("syntax-operand", false, "⟪ 1 ⟫ é ⟪ 1 + ⟫"),
+    ("syntax-empty-if", false, "⟦ set q = 1 ⟧⟪ q ⟫⟦ if ⟧a⟦ endif ⟧"),
+    ("syntax-unterminated-string", false, "⟪ 1 ⟫⟪ \"abc ⟫"),
+    ("syntax-unknown-tag", false, "⟨ c ⟩⟨ d ⟩⟦ nope ⟧"),
+    ("addtime-unknown-filter", false, "⟪ 1 ⟫⟪ 2 ⟫⟪ s | no_such_filter ⟫"),
+];
+
+fn respell(text: &str, d: &[&str; 6]) -> String {
+    text.replace('⟦', d[0]).replace('⟧', d[1]).replace('⟪', d[2]).replace('⟫', d[3]).replace('⟨', d[4]).replace('⟩', d[5])
+}
+
+fn run_custom(dset: usize, fault: usize, pad: usize, ctx: &tera::Context, acc: &mut Acc) {
+    let (dname, d) = &CUSTOM_DELIMS[dset];
+    let (id, render, text) = CUSTOM_FAULTS[fault];
+    let text = respell(text, d);
+    let id = format!("custom-delimiters/{dname}/{id}");
+    let planted = plant(sites::TOP, PADS[pad].1, &text, true);
+    let info = CaseInfo {
+        id: &id,
+        site: sites::TOP,
+        pad,
+        planted: &planted,
+        snippet: planted.offset..planted.offset + text.len(),
+        culprits: vec![],
+        extent: Extent::ToEnd,
+        expect_calls: false,
+    };
+    let delims = tera::Delimiters {
+        block_start: d[0].into(),
+        block_end: d[1].into(),
+        variable_start: d[2].into(),
+        variable_end: d[3].into(),
+        comment_start: d[4].into(),
+        comment_end: d[5].into(),
+    };
+    match execute_with(&planted, render, ctx, Some(delims)) {
+        Observed::NoError => {
+            acc.violation(format!("planted-fault-did-not-fail:{id}"), "no error was raised", || info.json(json!({})));
+            acc.case(true, "no-error");
+        }
+        Observed::Panic { phase, msg } => {
+            acc.violation(format!("panic:{phase}"), format!("the engine panicked: {msg}"), || info.json(json!({"panic": msg})));
+            acc.case(true, "panic");
+        }
+        Observed::Error { err, .. } => {
+            let display = engine::guarded(|| err.to_string());
+            match err.kind() {
+                ErrorKind::SyntaxError(r) => {
+                    judge_report(r, "syntax", display, &info, Judge::Structure, acc);
+                    acc.case(true, "syntax-error");
+                }
+                ErrorKind::RenderingError(r) => {
+                    judge_report(r, "render", display, &info, Judge::Structure, acc);
+                    acc.case(true, "render-error");
+                }
+                ErrorKind::Msg(text) if text.starts_with("error: ") && text.contains("--> ") => {
+                    match parse_report(text) {
+                        Err(why) => acc.violation("addtime-malformed", why, || info.json(json!({"kind": "Msg", "display": text}))),
+                        Ok(rep) => {
+                            let l = &rep.main.locus;
+                            let src = planted.source(&l.file);
+                            // the reported column must be the character column of the unknown name
+                            let want = src.and_then(|s| s.find("no_such_filter").map(|o| oracle::linecol(s, o)));
+                            if src.is_none() || want.map(|(line, col)| (line, col + 1)) != Some((l.line, l.col1)) {
+                                acc.violation(
+                                    "addtime-unreal-position",
+                                    format!("{}:{}:{} reported, the unknown filter name is at {:?} (line, 0-based char column)", l.file, l.line, l.col1, want),
+                                    || info.json(json!({"kind": "Msg", "display": text})),
+                                );
+                            }
+                        }
+                    }
+                    acc.case(true, "addtime-report");
+                }
+                other => {
+                    acc.violation(format!("unpositioned:{id}"), format!("error without a position: {}", kind_tag(other)), || info.json(json!({})));
+                    acc.case(true, "unpositioned");
+                }
+            }
+        }
+    }
+    if pad == 2 && acc.wants_sample() {
+        acc.sample(|| json!({"fault": id, "template": planted.source("entry.html")}));
+    }
+}
+
 fn join(tokens: &[String]) -> String {
     tokens.concat()
 }
@@ -763,6 +871,30 @@ fn main() {
             let id = format!("delete[{t}]:{}", join(toks));
             for pad in 0..PADS.len() {
                 run_edit(&id, &text, site, pad, true, &ctx, acc);
+            }
+        },
+    );
+
+    // ---------------------------------------------------------------- custom delimiter sets
+    // the same structural requirements under other delimiter sets, incl. delimiters that are one
+    // two-byte character (seeded change C12-3: the column advanced by bytes over such a delimiter)
+    let n_custom = (CUSTOM_DELIMS.len() * CUSTOM_FAULTS.len()) as u64;
+    run.family(
+        Family::new(
+            "custom-delimiters",
+            n_custom,
+            &format!(
+                "{} delimiter sets (ASCII pairs; one two-byte character each) x {} faults (rendering, syntax, registration-time) with several tags, expressions and comments before the fault on its line x {} paddings: template, byte range, line/column recomputation, display",
+                CUSTOM_DELIMS.len(),
+                CUSTOM_FAULTS.len(),
+                PADS.len()
+            ),
+        ),
+        |item, acc: &mut Acc| {
+            let dset = item as usize / CUSTOM_FAULTS.len();
+            let fault = item as usize % CUSTOM_FAULTS.len();
+            for pad in 0..PADS.len() {
+                run_custom(dset, fault, pad, &ctx, acc);
             }
         },
     );
